@@ -557,7 +557,7 @@ fn retrace(sink: &mut Sink, o: &Opts) {
                 }
             }
         }
-        if focus == "all" || focus == "frame" {
+        if focus == "all" || focus == "frame" || focus == "params" {
             qs.extend(gen::targeted(src, 60));
         }
         if wild {
@@ -799,6 +799,41 @@ fn cache(sink: &mut Sink, o: &Opts) {
                     let pre = &bytes[..c];
                     sink.emit(json!({"t": "parse", "what": "prefix", "bytes": enc::bytes(pre), "outcome": parse_outcome(pre)}));
                 }
+                // the same file at an address that is 4 modulo 8 (a header only needs 4-byte alignment): every strict
+                // prefix is rejected or answers the probe queries like the full file at that address does
+                if bytes.len() <= 600 {
+                    let at4 = |b: &[u8]| -> (Value, Vec<Value>) {
+                        let padded = [vec![0u8; 4], b.to_vec()].concat();
+                        let store = crate::handles::Aligned::new(&padded);
+                        let view = &store.bytes()[4..];
+                        let parse = match guarded(std::panic::AssertUnwindSafe(|| proguard::ProguardCache::parse(view).map(|_| ()))) {
+                            Ok(Ok(())) => json!({"ok": true}),
+                            Ok(Err(e)) => cache_error_json(&e),
+                            Err(p) => json!({"ok": false, "err": "panic", "msg": p}),
+                        };
+                        let answers = if parse["ok"] == true {
+                            let uni = gen::universe(src);
+                            let qs = gen::targeted(src, 40);
+                            let _ = &uni;
+                            guarded(std::panic::AssertUnwindSafe(|| {
+                                let c = proguard::ProguardCache::parse(view).unwrap();
+                                let h = crate::handles::Handle::Cache(c);
+                                qs.iter().map(|q| { let pq = crate::handles::parse_query(q); h.answer(&pq) }).collect::<Vec<Value>>()
+                            })).unwrap_or_else(|p| vec![json!({"panic": p})])
+                        } else {
+                            vec![]
+                        };
+                        (parse, answers)
+                    };
+                    let (full_parse, full_answers) = at4(&bytes);
+                    for cut in 0..bytes.len() {
+                        let (p, a) = at4(&bytes[..cut]);
+                        let accepted = p["ok"] == true;
+                        sink.emit(json!({"t": "torn_at", "residue": 4, "cut": cut, "len": bytes.len(), "outcome": p, "accepted": accepted,
+                                         "full_accepted": full_parse["ok"] == true,
+                                         "answers_like_full": !accepted || (full_parse["ok"] == true && a == full_answers)}));
+                    }
+                }
                 if bytes.len() >= 24 {
                     // single-field edits of the 24-byte header
                     let mut edits: Vec<Vec<u8>> = vec![];
@@ -919,6 +954,20 @@ fn cache(sink: &mut Sink, o: &Opts) {
                     let o = crate::sink::run(src, vec![], cap);
                     if o.ok {
                         copies.push(o.sink.data);
+                    }
+                }
+                // the same mapping bytes at every address residue modulo 8 (nothing may depend on where the caller's
+                // buffer happens to live)
+                for shift in 0..8usize {
+                    let padded = [vec![b'#'; shift], src.clone()].concat();
+                    let store = crate::handles::Aligned::new(&padded);
+                    let view: &[u8] = &store.bytes()[shift..];
+                    match guarded(std::panic::AssertUnwindSafe(|| {
+                        let mut out = Vec::new();
+                        proguard::ProguardCache::write(&proguard::ProguardMapping::new(view), &mut out).map(|_| out).map_err(|e| e.to_string())
+                    })) {
+                        Ok(Ok(b)) => copies.push(b),
+                        _ => copies.push(vec![]),
                     }
                 }
                 // sinks that take part of a buffer and then report a failure of some kind (WouldBlock, TimedOut, ...)
@@ -1063,6 +1112,17 @@ fn sinks(sink: &mut Sink, o: &Opts) {
         for (script, rest) in scripts {
             let out = crate::sink::run(&src, script, rest);
             sink.emit(crate::sink::event(&out));
+        }
+        // sinks that implement write_vectored and take a limited number of bytes per call ACROSS the offered buffers
+        if !big && k % 4 == 1 {
+            for cap in [1i64, 2, 3, 5, 7, 8, 9, 13, 23, 25, 26, 27, 29, 30, 31, 33, 37, 38, 39, 41, 47, 64] {
+                let out = crate::sink::run_vectored(&src, vec![], cap);
+                sink.emit(crate::sink::event(&out));
+            }
+            for i in 0..ncalls.min(10) {
+                let out = crate::sink::run_vectored(&src, [vec![1 << 30; i], vec![rng.range(1, 40) as i64]].concat(), 1 << 30);
+                sink.emit(crate::sink::event(&out));
+            }
         }
     }
 }
